@@ -204,6 +204,24 @@ def r22(ctx, rep, ti):
                 raise AnalysisError('anchor vanished: streamed parameter(s) %s of %s' % (missing, fn.fq))
         else:
             S = set(srcs)
+        # a parameter that is walked in lockstep with the streamed table (zip / zip_longest) is streamed as well: a column
+        # given as a petl container must not be scanned before the first row either
+        for x in ast.walk(fn.node):
+            if isinstance(x, ast.Call) and norm(x.func).split('.')[-1] in ('zip', 'izip', 'izip_longest', 'zip_longest') and \
+                    len(x.args) >= 2:
+                its = set(S)
+                for y in ast.walk(fn.node):
+                    if isinstance(y, ast.Assign) and len(y.targets) == 1 and isinstance(y.targets[0], ast.Name) and \
+                            isinstance(y.value, ast.Call) and norm(y.value.func) == 'iter' and len(y.value.args) == 1 and \
+                            norm(y.value.args[0]) in S:
+                        its.add(y.targets[0].id)
+                if not any(isinstance(a, ast.Name) and a.id in its for a in x.args):
+                    continue
+                argnames = [{y.id for y in ast.walk(a) if isinstance(y, ast.Name)} for a in x.args]
+                for ns in argnames:
+                    for nm in ns:
+                        if nm in fn.params and nm != 'self' and nm not in S:
+                            S = S | {nm}
         S = {s for s in S if s != 'self'} | {s + '[]' for s in S if (s + '[]') in srcs}
         containers = {s for s in S if s.endswith('[]')}
         flagged = False
